@@ -1231,6 +1231,22 @@ func comparatorOrdersElements(less *ssa.Function) bool {
 			return !isInt || x.Type().Underlying().(*types.Basic).Kind() != types.Int
 		case *ssa.UnOp:
 			return fromElem(x.X, d+1)
+		case *ssa.Alloc:
+			// a parameter spilled into its cell
+			var val ssa.Value
+			n := 0
+			if x.Referrers() != nil {
+				for _, r := range *x.Referrers() {
+					if st, ok := r.(*ssa.Store); ok && st.Addr == ssa.Value(x) {
+						val = st.Val
+						n++
+					}
+				}
+			}
+			if prm, ok := val.(*ssa.Parameter); ok && n == 1 {
+				return fromElem(prm, d+1)
+			}
+			return false
 		case *ssa.IndexAddr:
 			_, isParam := x.Index.(*ssa.Parameter)
 			return isParam
@@ -1249,6 +1265,14 @@ func comparatorOrdersElements(less *ssa.Function) bool {
 			// argument-less method of the element, or a string normaliser applied to it
 			if x.Call.IsInvoke() && len(x.Call.Args) == 0 {
 				return fromElem(x.Call.Value, d+1)
+			}
+			// a key function handed to a sort-by-key helper, applied to the element:
+			// every caller of the helper must hand in a key that is a selection of
+			// the element (a field, an argument-less method)
+			if !x.Call.IsInvoke() && x.Call.StaticCallee() == nil && len(x.Call.Args) == 1 && fromElem(x.Call.Args[0], d+1) {
+				if keyParamOrders(x.Call.Value, fromElem) {
+					return true
+				}
 			}
 			if sc := x.Call.StaticCallee(); sc != nil {
 				if sc.Signature.Recv() != nil && len(x.Call.Args) == 1 {
@@ -1719,6 +1743,9 @@ func (e *orderEngine) sortsOrSetifies(f *ssa.Function) bool {
 	if f == nil || len(f.Blocks) == 0 {
 		return false
 	}
+	if o := f.Origin(); o != nil && f.Synthetic != "" && len(o.Blocks) > 0 {
+		f = o // instantiation wrapper of a generic helper: judge the helper
+	}
 	res := false
 	eachCall(f, func(cl ssa.CallInstruction) {
 		if isSanitiserCall(cl) {
@@ -2116,4 +2143,105 @@ func loopSize(l *mapLoop) int {
 		n += len(b.Instrs)
 	}
 	return n
+}
+
+// keyParamOrders: fnVal is a function-typed parameter of a helper (possibly seen
+// from a closure of it as a captured variable), and at every call of the helper
+// in the repository the function handed in returns a selection of its argument.
+func keyParamOrders(fnVal ssa.Value, fromElem func(ssa.Value, int) bool) bool {
+	fnVal = unspill(fnVal)
+	if ld, ok := fnVal.(*ssa.UnOp); ok && ld.Op == token.MUL {
+		fnVal = ld.X // the captured cell holding the function
+	}
+	var prm *ssa.Parameter
+	switch x := fnVal.(type) {
+	case *ssa.Parameter:
+		prm = x
+	case *ssa.FreeVar:
+		// bound to a parameter of the enclosing function
+		fn := x.Parent()
+		par := fn.Parent()
+		if par == nil {
+			return false
+		}
+		for k, fv := range fn.FreeVars {
+			if fv != x {
+				continue
+			}
+			eachInstr(par, func(_ *ssa.BasicBlock, i ssa.Instruction) {
+				if mc, ok := i.(*ssa.MakeClosure); ok && mc.Fn == ssa.Value(fn) && k < len(mc.Bindings) {
+					if q, ok := unspill(mc.Bindings[k]).(*ssa.Parameter); ok {
+						prm = q
+					} else if al, ok := mc.Bindings[k].(*ssa.Alloc); ok && al.Referrers() != nil {
+						for _, r := range *al.Referrers() {
+							if st, ok := r.(*ssa.Store); ok && st.Addr == ssa.Value(al) {
+								if q, ok := st.Val.(*ssa.Parameter); ok {
+									prm = q
+								}
+							}
+						}
+					}
+				}
+			})
+		}
+	}
+	if os.Getenv("VERIF_DEBUG_KEY") != "" {
+		fmt.Fprintf(os.Stderr, "KEYDBG fnVal=%T prm=%v\n", fnVal, prm)
+	}
+	if prm == nil {
+		return false
+	}
+	h := prm.Parent()
+	idx := -1
+	for k, q := range h.Params {
+		if q == prm {
+			idx = k
+		}
+	}
+	if idx < 0 {
+		return false
+	}
+	// every call of h, or of an instantiation of h when h is generic (the
+	// instantiation wrappers' own calls of h are not call sites)
+	generic := h
+	if o := h.Origin(); o != nil {
+		generic = o
+	}
+	n, good := 0, true
+	if lastProgram == nil {
+		return false
+	}
+	for _, f := range lastProgram.RepoFuncs() {
+		if len(f.Blocks) == 0 || f == generic || f.Origin() == generic {
+			continue
+		}
+		eachCall(f, func(cl ssa.CallInstruction) {
+			sc := cl.Common().StaticCallee()
+			if sc == nil || (sc != generic && sc.Origin() != generic) {
+				return
+			}
+			args := cl.Common().Args
+			if idx >= len(args) {
+				good = false
+				return
+			}
+			n++
+			g, ok := stripFuncValue(args[idx])
+			if !ok || g == nil || len(g.Blocks) == 0 {
+				good = false
+				return
+			}
+			for _, b := range g.Blocks {
+				if ret, ok := b.Instrs[len(b.Instrs)-1].(*ssa.Return); ok {
+					if len(ret.Results) != 1 || !fromElem(ret.Results[0], 0) {
+						good = false
+					}
+				}
+			}
+		})
+	}
+	if os.Getenv("VERIF_DEBUG_KEY") != "" {
+		fmt.Fprintf(os.Stderr, "KEYDBG h=%s n=%d good=%v\n", h.Name(), n, good)
+	}
+	return n > 0 && good
 }
